@@ -59,6 +59,11 @@ def scenarios(quick):
             out.append({'fam': 'D', 'I': 1, 's0': 0.0, 'script': sc, 'I2': I2, 'bound': 1 if quick else 2})
         out.append({'fam': 'D', 'I': 1, 's0': 0.0, 'script': ((0.0, 1, 'none'),), 'I2': I2, 'script2': ((0.0, 1, 'raise'),),
                     'bound': 1})
+    # a callback whose result has no truth value (a list of two elements) fails like a raising one
+    for I in (1, 2):
+        for sc in (((0.0, 1, 'retlist'),), ((0.0, 1, 'none'), (0.0, 1, 'retlist'))):
+            out.append({'fam': 'R', 'I': I, 's0': 0.0, 'script': sc, 'bound': 1})
+            out.append({'fam': 'R', 'I': I, 's0': 0.0, 'script': sc, 'ext': (len(sc) + 1, 'pre'), 'bound': 1})
     # the callback is passed under a second name of the same function (al::cb; .timer(..;al)) and that name is redefined
     for I in (1, 2):
         for sc in (((0.0, 1, 'redefine'), (0.0, 1, 'none')), ((0.0, 1, 'none'), (0.0, 1, 'redefine'), (0.0, 1, 'none'))):
@@ -151,11 +156,14 @@ class Run:
                 cbname = ('al' if self.sc.get('alias') else 'cb') if name == 't' else 'cb2'
                 self.kl('%s::{%s%s()}' % (cbname, 'tick' if name == 't' else 'tock', '2' if nv == 'v2' else ''))
                 m.version = nv
-            elif action == 'raise':
+            elif action in ('raise', 'retlist'):
                 m.raised = True
                 if m.live:
                     m.live, m.why = False, 'raised'        # a dead-or-alive timer: only "no resurrection" is checked
                     m.raise_free = True
+                if action == 'retlist':
+                    import numpy as _np
+                    return _np.array([1, 2])        # no truth value: the timer code fails on it like on an exception
                 raise KeyError('callback failure injected by the harness')    # the class the function wrapper itself catches around its name lookup
         finally:
             m.busy = False
